@@ -164,7 +164,8 @@ package codegen
 //@   loop 1: step prev(out.Invalids) < 1000000 ==> out.Invalids - prev(out.Invalids) >= nnNulls - prev(nnNulls)
 //@   at `out.Concurrently(i, func(ctx context.Context) graphql.Marshaler { return innerFunc(ctx, out) })` requires field.Deferrable == nil
 //@   at `dfs.Concurrently(di, func(ctx context.Context) graphql.Marshaler { return innerFunc(ctx, dfs) })` requires field.Deferrable != nil
-//@   at `atomic.AddInt32(&ec.deferred, int32(len(deferred)))` requires out.Invalids == 0
+//@   at `atomic.AddInt32(&ec.deferred, int32(len(deferred)))` requires out.Invalids == 0 && calls(Dispatch) == 1
+//@   callsite processDeferredGroup: requires calls(Dispatch) == 1
 //@   ensures calls(Dispatch) <= 1
 
 // executableSchema.Schema(): a read-only getter (needed so that evaluating `ec.Schema()` between the gate test and
@@ -195,9 +196,9 @@ package codegen
 
 // type.gotpl with exec.worker_limit > 0: the element goroutine gives its semaphore slot back on EVERY path,
 // including a recovered panic (otherwise later elements can never acquire and the list never completes).
-//@ family listwl [C04,C05]
+//@ family listwl [C04,C05,C06]
 //@   ensures calls(NewWeighted) <= 1
-//@ family listwl$closure [C04,C05]
+//@ family listwl$closure [C04,C05,C06]
 //@   ensures !isLen1 ==> calls(Release) == 1
 
 // models.gotpl (modelgen): a generated enum accepts exactly its declared spellings: success means the stored value
